@@ -487,7 +487,9 @@ def step (recTop : Rec) (env : Env) (len : Nat) (i : Instr) (pc : Nat) (s : St) 
             if !env.hasBinds then .fail (.err .runtime) s2.log else
             match env.callable B name with
             | some c => .ok pc { s2 with stack := .bound c obj :: s2.stack }
-            | none => .ok pc (pushV (.err .attribute) s2))
+            | none =>
+              -- a failed operand stays the failure it is (it is not a missing field)
+              if obj.isErr then .ok pc (pushV obj s2) else .ok pc (pushV (.err .attribute) s2))
      | .ok (.val _) s1 =>
        (match popV rec env s1 with
         | .fail a l => .fail a l
